@@ -23,7 +23,7 @@ ANCHOR_FILES = ['cirbo/sat/cnf/tseytin.py', 'cirbo/sat/cnf/cnf.py', 'cirbo/sat/s
 ASSUMPTIONS = ['vt.refsem; vt.satref (own complete DPLL) enumerates models; z3-backed pysat stand-in for the solver call']
 REQUIRED = {'mon:tseytin_transformation.checked': 200, 'mon:is_circuit_satisfiable.checked': 100,
             'mon:is_satisfiable.checked': 100, 'selection:None': 50, 'selection:partial': 50, 'selection:repeated': 10,
-            'selection:empty': 10, 'nary_xor': 10, 'sat:True': 20, 'sat:False': 20, 'strong_vector_check': 50}
+            'selection:empty': 10, 'nary_xor': 10, 'sat:True': 20, 'sat:False': 20, 'strong_vector_check': 50, 'wide_gate': 10}
 
 CUR = {'ctx': None, 'case': None}
 
@@ -247,6 +247,8 @@ def check_case(case, ctx):
     sh = refsem.structural_hash(net)
     if any(t in ('XOR', 'NXOR') and len(o) > 2 for t, o in net.gates.values()):
         ctx.count('nary_xor')
+    if any(len(o) >= 8 for t, o in net.gates.values()):
+        ctx.count('wide_gate')
     for sel in case['selections']:
         CUR['case'] = dict(case, selection=sel)
         CUR['last_nontrivial'] = False
@@ -274,7 +276,8 @@ def check_case(case, ctx):
 def gen_case(rng, spec):
     shape = rng.choice(netgen.SHAPES + ['nary', 'chain'])
     net = netgen.rand_net(rng, shape=shape, max_in=5, min_in=1, max_g=spec.get('max_g', 10), max_arity=5,
-                          n_out=rng.choice([1, 1, 2, 3, 4]))
+                          n_out=rng.choice([1, 1, 2, 3, 4]), p_wide=0.06,
+                          label_style=rng.choice(['plain', 'plain', 'derived', 'derived', 'digits']))
     no = len(net.outputs)
     sels = [None]
     if no:
